@@ -86,6 +86,17 @@ def overwritten_checksummed_then_failing_sibling():
     return p, ops
 
 
+def forced_rebuild_fails_then_indirect_request():
+    """`redo -k chk b w` (chk -> b, w -> z -> b) where b, clean so far, now fails for an undeclared reason: chk's look marks b
+    "checked in this run", the forced rebuild of b fails, and w's request for z must still meet the failure (a "checked" mark
+    must not hide a failure recorded later in the same run); next run retries; repair propagates."""
+    p = _prog(['s0'], [('b', dict(deps=['s0'])), ('chk', dict(deps=['b'])), ('z', dict(deps=['b'])), ('w', dict(deps=['z']))])
+    ops = [B(['w', 'chk']), ('hflag', 'b', 1), B(['chk', 'b', 'w'], forced=True, keep=True), B(['w']), B(['w', 'chk']),
+           ('hflag', 'b', 0), B(['w', 'chk']), B(['w', 'chk']),
+           ('hflag', 'b', 1), B(['chk', 'b', 'w'], forced=True), B(['w'], keep=True), ('hflag', 'b', 0), B(['w', 'chk'])]
+    return p, ops
+
+
 SCENARIOS = dict((f.__name__, f) for f in (tolerated_failure_same_checksum, tolerated_failure_plain, forced_after_check_same_command,
                                            oob_dependency_fails_before_or_after, stamp_chain_edit_cycle, stamp_sometimes, override_then_removed,
-                                           overwritten_checksummed_then_failing_sibling))
+                                           overwritten_checksummed_then_failing_sibling, forced_rebuild_fails_then_indirect_request))
